@@ -422,3 +422,30 @@ Qed.
 Theorem spawn_effect_ledger w ev loc : let w' := res_world (builtin_effect KSpawn ev loc w) in
   w_drops w' = w_drops w /\ Permutation (stored w') (stored w).
 Proof. cbn zeta. cbn [builtin_effect]. destruct (spawn_all_ledger w) as (A & _ & C). split; assumption. Qed.
+
+(* ---------- C13: the dropper destroys each event handed to it exactly once ---------- *)
+Definition ev_entry (targeted : bool) (tag : N) (ev : evv) : list (N * N) :=
+  if targeted then
+    if (20 <=? tag) && (tag <? 40) then (if ctag_has_drop (tag - 20) then [(tag - 20, ev_ser ev)] else [])
+    else if ttag_has_drop tag then [(200 + tag, ev_ser ev)] else []
+  else if gtag_has_drop tag then [(100 + tag, ev_ser ev)] else [].
+
+Lemma ev_drop_spec w targeted tag ev : w_drops (ev_drop w targeted tag ev) = w_drops w ++ ev_entry targeted tag ev /\
+  w_gev (ev_drop w targeted tag ev) = w_gev w /\ w_tev (ev_drop w targeted tag ev) = w_tev w.
+Proof.
+  unfold ev_drop, ev_entry, drop_cval. destruct targeted; [destruct ((20 <=? tag) && (tag <? 40)); [destruct (ctag_has_drop (tag - 20))|destruct (ttag_has_drop tag)]|destruct (gtag_has_drop tag)];
+    cbn [w_drops w_gev w_tev log_drop set_drops fst]; rewrite ?app_nil_r; repeat split.
+Qed.
+
+Definition item_tag (w : world) (it : qitem) : N :=
+  if qi_targeted it
+  then match get_by_index (w_tev w) (qi_idx it) with Some (_, i) => e_tag i | None => 999 end
+  else match get_by_index (w_gev w) (qi_idx it) with Some (_, i) => e_tag i | None => 999 end.
+
+Theorem unwind_queue_spec q : forall w,
+  w_drops (unwind_queue q w) = w_drops w ++ flat_map (fun it => ev_entry (qi_targeted it) (item_tag w it) (qi_ev it)) q.
+Proof.
+  unfold unwind_queue. induction q as [|it q IH]; intros w; cbn [fold_left flat_map]; [now rewrite app_nil_r|].
+  set (tag := if qi_targeted it then _ else _). destruct (ev_drop_spec w (qi_targeted it) tag (qi_ev it)) as (A & B & C).
+  rewrite IH, A, <- app_assoc. f_equal. f_equal; [reflexivity|]. apply flat_map_ext. intros it'. unfold item_tag. now rewrite B, C.
+Qed.
